@@ -628,7 +628,9 @@ def gen_c18(rng, tier):
     ops_ = []
     for _ in range(rng.choice([1, 1, 2, 3])):
         name = rng.choice(C18_OPS)
-        while pop == "partitioned" and name in ("zip_self", "with_field"):     # (they make partitioned records: see above)
+        # (zip/with_field make partitioned records: see above; ak.mask with a NumPy mask on a *re*partitioned array was
+        #  seen to raise "partitionindex out of bounds" - like the boolean-array slice, not triaged, not drawn)
+        while pop == "partitioned" and name in ("zip_self", "with_field", "mask"):
             name = rng.choice(C18_OPS)
         m = n + 2
         ops_.append({"op": name, "i": rng.randint(-m, m), "start": rng.choice([None, rng.randint(-m, m)]),
@@ -881,6 +883,7 @@ def run_c18(ctx, ak, P, case):
     for k, op in enumerate(case["ops"]):
         seed = case["seed"] + k
         op = dict(op, typeop=case.get("typeop", True))
+        stop_chain = False
         ek, er = _call(P, lambda: _c18_apply(ak, np_, ref, eager, op, n, T, _random.Random(seed)))
         lk, lr = _call(P, lambda: _c18_apply(ak, np_, cur, eager, op, n, T, _random.Random(seed)))
         if ek == "value":
@@ -911,9 +914,12 @@ def run_c18(ctx, ak, P, case):
             same = _c18_type_same(ev, lv)
         elif op["op"] in ("tojson", "iter", "to_list"):
             same = _jsame(ev, lv)
-        elif op["op"] == "flatten_none" and ("{" in det["type"] or "(" in det["type"]):
+        elif op["op"] == "flatten_none" and ("{" in det["type"] or "(" in det["type"] or any(
+                o["op"] in ("combinations", "zip_self", "with_field", "fill_none", "concat_self", "concat_eager")
+                for o in case["ops"][:k])):      # (records and unions: leaves are strung together arm by arm)
             # (the order in which the fields of records are strung together is not fixed by any statement)
             same = sorted(map(repr, lv)) == sorted(map(repr, ev))
+            stop_chain = True            # (the two sides may now hold the same items in a different order)
         else:
             same = model.same(lv, ev)
         if not same:
@@ -922,6 +928,13 @@ def run_c18(ctx, ak, P, case):
             return
         ctx.count("p_values_agree")
         if not isinstance(er, (ak.Array, ak.Record)) or not isinstance(lr, (ak.Array, ak.Record)):
+            break
+        if stop_chain:
+            break
+        if pop == "partitioned" and len(er) == 0:
+            # (an empty slice of a partitioned array keeps no partition to carry the type: later operations see a bare
+            #  empty array - observed, not triaged, so the chain stops here and nothing is claimed beyond this point)
+            ctx.count("c18p_empty_intermediate_chain_stopped")
             break
         cur, ref = lr, er
     if pop == "virtual":
